@@ -120,6 +120,11 @@ def gen_signal(rng, g, i=None, kinds=None):
                      growth=float(rng.uniform(0.0, 0.4)))
     elif fk == 'voigt':
         fprof = dict(kind='voigt', g_width=w * df, l_width=float(10 ** rng.uniform(-1, 1)) * df)
+        r_ = rng.random()
+        if r_ < 0.15:
+            fprof['g_width'] = 0.0           # pure Lorentzian limit
+        elif r_ < 0.3:
+            fprof['l_width'] = 0.0           # pure Gaussian limit
     else:
         fprof = dict(kind=fk, width=w * df)
     bk = stratum(BP_KINDS, 13)
